@@ -9,7 +9,7 @@
 (*     and linker produced                                                   *)
 (* t = "rw":  bytes of the instance, uses / defs / clob = numbers of the     *)
 (*     core registers ppci declares as read / written / clobbered            *)
-EXTENDS Thumb, Arm32, Json, IOUtils
+EXTENDS ArmExec, Json, IOUtils
 Recs == JsonDeserialize(IOEnv.TRACE_FILE)
 ChunkLen == 16
 NChunks == (Len(Recs) + ChunkLen - 1) \div ChunkLen
@@ -50,4 +50,21 @@ LinkWrite == IsRw => \E d \in {Dec(Recs[idx], Recs[idx].bytes)} :
     Valid(d) => LinkW(d) \subseteq (SetOf(Recs[idx].defs) \cup SetOf(Recs[idx].clob))
 StaticReads == IsRw => \E d \in {Dec(Recs[idx], Recs[idx].bytes)} :
     Valid(d) => (Reads(d) \ ImplicitR(d)) \subseteq SetOf(Recs[idx].uses)
+
+\* ---- C07, dynamic clauses: ArmExec.Step on the seeded states Recs[idx].seeds (state k carries the flags SeedFlags[k])
+DeclWs(r) == SetOf(r.defs) \cup SetOf(r.clob)
+\* (i) executing the instruction changes no register outside the declared writes / clobbers (lr of a call: LinkWrite)
+NoUndeclaredChange == IsRw => \E d \in {Dec(Recs[idx], Recs[idx].bytes)} : Valid(d) =>
+    \A k \in SetOf(Recs[idx].seeds) :
+        \E s \in {SeedState(k, SeedFlags[k])} : \E t \in {Step(s, d, Recs[idx].isa)} :
+            t.st = "ok" => \A q \in 0..14 : (q \notin DeclWs(Recs[idx]) \cup LinkW(d)) => t.x[q + 1] = s.x[q + 1]
+\* (ii) two states that agree on the declared reads (+ the sp / pc the encoding fixes, the flags, memory) give the same
+\* declared outputs, memory effect and control transfer (an unexecuted conditional instruction keeps its old destination)
+OutputsDependOnDeclaredReads == IsRw => \E d \in {Dec(Recs[idx], Recs[idx].bytes)} : Valid(d) =>
+    \A k \in SetOf(Recs[idx].seeds) :
+        \E s1 \in {SeedState(k, SeedFlags[k])} : \E s2 \in {Perturb(s1, SetOf(Recs[idx].uses) \cup ImplicitR(d))} :
+        \E t1 \in {Step(s1, d, Recs[idx].isa)} : \E t2 \in {Step(s2, d, Recs[idx].isa)} :
+            (t1.st = "ok" /\ t2.st = "ok" /\ CondHolds(d.cond, s1.f)) =>
+                /\ \A q \in SetOf(Recs[idx].defs) \ {PC} : t1.x[q + 1] = t2.x[q + 1]
+                /\ t1.mem = t2.mem /\ t1.pc = t2.pc
 =============================================================================
